@@ -7,16 +7,12 @@ From Coq Require Import PrimFloat.
 Require Import PV.Base.Num PV.Base.NumR.
 
 Class NumSqrt (N : NumOps) := {
-  fsqrt : F -> F;
-  fnan : F;
+  fsqrt : @F N -> @F N;
+  fnan : @F N;
 }.
 
-#[export] Instance FloatSqrt : NumSqrt FloatOps := {|
-  fsqrt := PrimFloat.sqrt;
-  fnan := PrimFloat.nan;
-|}.
+Definition FloatSqrt : NumSqrt FloatOps := @Build_NumSqrt FloatOps PrimFloat.sqrt PrimFloat.nan.
+#[export] Existing Instance FloatSqrt.
 
-#[export] Instance RSqrt : NumSqrt ROps := {|
-  fsqrt := R_sqrt.sqrt;
-  fnan := 0%R;
-|}.
+Definition RSqrt : NumSqrt ROps := @Build_NumSqrt ROps R_sqrt.sqrt 0%R.
+#[export] Existing Instance RSqrt.
